@@ -40,7 +40,11 @@ MANIFEST = {
              "cumulation loops, span resolution, error branches) is tied to the code by differential correspondence on generated series "
              "(all six frequencies, interior/leading/trailing missing values, default/explicit/open spans, scalar and series initial "
              "conditions, malformed shifts and mixed frequencies), exact for diff/cum_diff on dyadic data and to 1e-9 otherwise; an "
-             "independent numpy oracle on the implementation (multi-variant series included) supplies the replay."),
+             "independent numpy oracle on the implementation (multi-variant series included) supplies the replay. Operands with different "
+             "numbers of variants (initial with fewer variants than the change series: broadcast rule `pickVariant`, last supplied variant "
+             "repeated) are compared variant by variant and checked by a round-trip oracle; sequences of calls that reuse the same Span / "
+             "initial / change objects are checked by an oracle (arguments unchanged, result equal to a call with fresh arguments, round "
+             "trip on every call) -- object identity is outside the Lean model."),
     "design": "7/C13",
     "note": ("IEEE rounding is outside the theorems (fields / reals); numpy's inf/nan results on zero divisors and non-positive logs "
              "are one 'missing' value in the model; variants are modelled one column at a time (multi-variant series: oracle only)."),
@@ -49,7 +53,9 @@ MANIFEST = {
 ASSUMPTIONS = [
     "floating-point rounding is not modelled: theorems are over fields / the reals; class-T comparisons use 1e-9 relative tolerance on positive data bounded away from 0",
     "numpy's non-finite results (division by zero, log of a non-positive number) are identified with 'missing' in the model",
-    "one variant at a time in the model; column independence of multi-variant series is exercised by the numpy oracle only",
+    "one variant at a time in the model (plus the variant broadcast rule pickVariant for `initial`); column independence of multi-variant series is exercised by the numpy oracle only",
+    "in-place mutation / aliasing of argument objects (Span, initial, change series) is outside the Lean model and covered by the reuse oracle only",
+    "the variants oracle relies on irispie's documented broadcast rule (the last supplied variant is repeated) in addition to the property statement",
     "Series.get/set/trim semantics (property C10) are taken as a period-indexed map; representation details are not re-proved here",
 ]
 
@@ -736,7 +742,7 @@ def run_cumv(ctx: Ctx, cases, stream="cumv"):
                 warnings.simplefilter("ignore")
                 ch = getattr(ir, kind[4:])(x, k)
                 y = getattr(ir, kind)(ch, k, initial=build_initial(f, case["initial"]), span=ir.Span(CLS[f](a), CLS[f](b), st))
-            outs = [canon_series(c, y, j) if (y.start is not None and y.data.shape[1] == nv) else "shape" for j in range(nv)]
+            outs = ["empty" if y.start is None else canon_series(c, y, j) if y.data.shape[1] == nv else "shape" for j in range(nv)]
         except Exception as e:
             outs = [err_kind(e)] * nv
         ini = case["initial"]
@@ -1032,19 +1038,21 @@ def run(ctx: Ctx):
                 "leading/trailing missing values), every change function with negative and keyword shifts, conversion helpers, cumulations "
                 "(round trips of the implementation's own change series and free-standing ones; forward/backward, default/explicit/open/"
                 "stepped/mixed-frequency/empty spans; series, scalar, default and misaligned initial conditions; malformed shifts). "
-                "oracle cases: 1-3 variants, formulas / conversions / round trips. distinct_nontrivial counts distinct "
+                "cumv: 2-4 variant change series with an initial of fewer variants, one model line per variant. "
+                "oracle cases: 1-3 variants, formulas / conversions / round trips; round trips with an initial of fewer variants; call sequences "
+                "reusing one Span / initial / change object. distinct_nontrivial counts distinct "
                 "(operation, function, shift or direction, frequency, has-missing) classes among agreeing correspondence lines with >= 3 "
                 "cells and distinct (operation, function, frequency, shift, direction, variants, ...) classes among oracle cases with >= 3 periods")
     replay_corpus(ctx)
     rng = ctx.rng.fork("lines")
     run_lines(ctx, "change", gen_change_lines(ctx, rng.fork("change"), ctx.n(4000, 80000)))
-    run_lines(ctx, "conv", gen_conv_lines(ctx, rng.fork("conv"), ctx.n(800, 12000)))
+    run_lines(ctx, "conv", gen_conv_lines(ctx, rng.fork("conv"), ctx.n(600, 12000)))
     run_lines(ctx, "cum", gen_cum_lines(ctx, rng.fork("cum"), ctx.n(3500, 70000)))
-    run_cumv(ctx, gen_cumv_cases(ctx, rng.fork("cumv"), ctx.n(500, 8000)))
+    run_cumv(ctx, gen_cumv_cases(ctx, rng.fork("cumv"), ctx.n(400, 8000)))
     for case in FIXED_ORACLE_CASES:
         run_oracle_case(ctx, case)
     xrng = ctx.rng.fork("oracle-extra")
-    extra = gen_variant_cases(ctx, xrng.fork("variants"), ctx.n(800, 12000)) + gen_reuse_cases(ctx, xrng.fork("reuse"), ctx.n(600, 10000))
+    extra = gen_variant_cases(ctx, xrng.fork("variants"), ctx.n(600, 12000)) + gen_reuse_cases(ctx, xrng.fork("reuse"), ctx.n(400, 8000))
     for case in extra:
         run_oracle_case(ctx, case)
         ctx.count("oracle:" + case["op"])
